@@ -65,6 +65,9 @@ def pool(variant, maxlen):
     # multi-line literals ending in / containing quotes (the long-quote n3 form)
     T += [lit('a\nb"'), lit('line one\nline two"', lang="en"), lit('a\nb"', dt="http://ex.example/dt"), lit('a\nb""'), lit('\n"'), lit('a\nb"""'), lit("a\nb\\"), lit('"\n'), lit("a\nb'"),
           lit("''" + "'\n"), lit('a\r"')]
+    T += [{"k": "iri", "v": u} for u in ("http://example.org/a?", "http://example.org/a;", "http://example.org/a?#frag", "HTTP://EXAMPLE.org/A", "http://example.org/a/./b/../c", "http://example.org/a#",
+                                         "http://schema.org/name", "https://schema.org/name", "http://ex.example/T", "svn+ssh://h/p", "z39.50s://h/p", "mailto:a@b.example")]
+    T += [lit("v", dt="http://schema.org/Text"), lit("v", dt="https://schema.org/Text"), lit("v", dt="http://ex.example/T")]
     T += [lit("v", dt="http://ex.example/dt"), lit("v", dt="http://ex.example/DT"), lit("<b>x</b>", dt="http://www.w3.org/1999/02/22-rdf-syntax-ns#XMLLiteral")]
     classes = ["plain", "dquote", "squote", "backslash", "LF", "CR", "TAB", "nonASCII", "nonBMP", "space", "gt"]
     for i, cs in enumerate(shapes.class_strings(maxlen, classes)):
@@ -74,7 +77,7 @@ def pool(variant, maxlen):
     return T
 
 
-VIA = ["pickle0", "pickle1", "pickle2", "pickle3", "pickle4", "pickle5", "copy", "deepcopy", "from_n3", "turtle", "sparql_values"]
+VIA = ["pickle0", "pickle1", "pickle2", "pickle3", "pickle4", "pickle5", "copy", "deepcopy", "ctor", "from_n3", "from_n3_nsm", "turtle", "sparql_values", "sparql_base", "sparql_prepared"]
 
 
 def normalised(t):
@@ -88,9 +91,10 @@ def n3_ok(t, how="from_n3"):
     """terms whose n3() text is legal input for the text routes.  Parsers normalise lexical forms by design
     (rdflib.NORMALIZE_LITERALS) and scope blank-node labels to the document (C12), so non-normalised literals and, for the
     document parsers, blank nodes are not sent through them."""
-    if not normalised(t):
+    # from_n3 and the Turtle parser normalise lexical forms by design (rdflib.NORMALIZE_LITERALS); the SPARQL parser keeps them as written
+    if not normalised(t) and not how.startswith("sparql"):
         return False
-    if t["k"] == "bnode" and how in ("turtle", "ntriples", "sparql_values"):
+    if t["k"] == "bnode" and how in ("turtle", "ntriples", "sparql_values", "sparql_base", "sparql_prepared"):
         return False
     if t["k"] == "var":
         return False
@@ -125,7 +129,7 @@ def run(out, tier, seed):
         jobs.append({"cfg": {}, "events": [{"op": "sort", "xs": xs, "seed": i}]})
     for t in T:
         for h in VIA:
-            if h.startswith(("pickle", "copy", "deepcopy")) or n3_ok(t, h):
+            if h.startswith(("pickle", "copy", "deepcopy", "ctor")) or n3_ok(t, h):
                 jobs.append({"cfg": {}, "events": [{"op": "via", "how": h, "a": t}]})
     # the store's NodePickler, shared between terms: every ordered pair of pool terms that spell the same string
     by = {}
